@@ -126,9 +126,9 @@ type trPair struct {
 
 var transforms = []trPair{
 	{1,
-		func(k KeyStruct) (string, error) { return k.A + ":" + k.B, nil },
+		func(k KeyStruct) (string, error) { return k.A + "\x1f" + k.B, nil },
 		func(s string) (KeyStruct, error) {
-			i := strings.IndexByte(s, ':')
+			i := strings.IndexByte(s, 0x1f)
 			if i < 0 {
 				return KeyStruct{}, fmt.Errorf("no separator")
 			}
